@@ -6,6 +6,9 @@ CONSTANTS
   Thr = 10
   Mode = "all"
   Contig = TRUE
+  Hows = {"set","obs"}
+  NatStep = 10
+  ObsPos = {9,11,19,21,31}
   Export = FALSE
 INVARIANT TxNeverDiffers
 CONSTRAINT Emit
